@@ -3,6 +3,7 @@ package types
 import (
 	storetypes "cosmossdk.io/store/types"
 	clienttypes "github.com/bianjieai/tibc-go/modules/tibc/core/02-client/types"
+	host "github.com/bianjieai/tibc-go/modules/tibc/core/24-host"
 	"github.com/bianjieai/tibc-go/modules/tibc/core/exported"
 )
 
@@ -12,6 +13,11 @@ func (cs ClientState) ExportMetadata(store storetypes.KVStore) []exported.Genesi
 	gm := make([]exported.GenesisMetadata, 0)
 	IterateProcessedTime(store, func(key, val []byte) bool {
 		gm = append(gm, clienttypes.NewGenesisMetadata(key, val))
+		return false
+	})
+	// the ordered index of consensus states (used for pruning and ordered lookup) must survive too
+	IterateConsensusStateAscending(store, func(height exported.Height) bool {
+		gm = append(gm, clienttypes.NewGenesisMetadata(IterationKey(height), host.ConsensusStateKey(height)))
 		return false
 	})
 	if len(gm) == 0 {
